@@ -240,7 +240,7 @@ Theorem R17_12_truth_not_value :
 Proof. exact truth_not_value. Qed.
 Print Assumptions R17_12_truth_not_value.
 
-(* T17.9b sum(range(a, b)) after the repair of literal empty ranges (a46a07b): the emitted value is
+(* T17.9b sum(range(a, b)) after the repair of literal empty ranges (c4152d3): the emitted value is
    right whenever a <= b or both bounds are literals; R17.10b: still refuted for symbolic bounds. *)
 Theorem T17_9b_sum_range_out_sound :
   forall literal a b, (a <= b \/ literal = true)%Z -> (2 * sum_range a b = sum_range_out2 literal a b)%Z.
